@@ -20,8 +20,83 @@ fn errname(e: quandary::message::writer::Error) -> &'static str {
               AlreadyTsig => "AlreadyTsig", NotSignedTsig => "NotSignedTsig" }
 }
 
+/// (G) qv writer replay <histories> <out>: one record per TLC-generated history of MC_WriterSpace. Every action is
+/// carried out on a real Writer over a 140-octet buffer with records that cannot be compressed (root owner, opaque
+/// RDATA; questions with names that share nothing), so that the model's sizes are exact; after each call the
+/// (cursor, available, limit) triple (verif_state hook) and the result are recorded, finish() records the length.
+fn replay(hist: &str, outp: &str) {
+    use quandary::message::tsig::{Algorithm, PreparedTsigRr};
+    use quandary::rr::rdata::TimeSigned;
+    use quandary::message::writer::TsigMode;
+    let text = std::fs::read_to_string(hist).expect("cannot read histories");
+    let mut out = Out::create(outp);
+    for line in text.lines().filter(|l| !l.trim().is_empty()) {
+        let h: Vec<Value> = serde_json::from_str(line).expect("bad history line");
+        let mut buf = vec![0xEEu8; 140];
+        let mut ops: Vec<Value> = Vec::new();
+        let mut fin: i64 = 0;
+        let res = catch_unwind(AssertUnwindSafe(|| {
+            let mut w = Writer::new(&mut buf[..], 140).unwrap();
+            let mut nq = 0u32;
+            for a in &h {
+                let a = a.as_array().unwrap();
+                let name = a[0].as_str().unwrap();
+                let arg = a.get(1).and_then(|v| v.as_u64()).unwrap_or(0) as usize;
+                let r: &'static str = match name {
+                    "AddQuestion" => {
+                        // qname of arg - 4 octets on the wire: the root, or one label that no other question shares
+                        let qname: Box<Name> = if arg == 5 { Name::root().to_owned() } else {
+                            let mut v = vec![(arg - 6) as u8];
+                            for i in 0..(arg - 6) { v.push(b'a' + ((nq as usize * 7 + i) % 26) as u8); }
+                            v.push(0);
+                            name_of_wire(&v)
+                        };
+                        nq += 1;
+                        let q = Question { qname, qtype: 1.into(), qclass: Class::IN.into() };
+                        w.add_question(&q).map(|_| "ok").unwrap_or_else(errname)
+                    }
+                    "AddRR" => {
+                        let rd = vec![7u8; arg - 11];
+                        let rdata: &Rdata = rd.as_slice().try_into().unwrap();
+                        w.add_answer_rr(HintedName::new(Hint::None, Name::root()), 65280.into(), Class::IN, Ttl::from(1), rdata, None).map(|_| "ok").unwrap_or_else(errname)
+                    }
+                    "SetLimit" => { w.set_limit(arg); "ok" }
+                    "SetEdns" => w.set_edns(1232).map(|_| "ok").unwrap_or_else(errname),
+                    "SetTsig" => {
+                        // HMAC-SHA256: signed_len = key name + 13 (algorithm name) + 26 + 32
+                        let kl = arg - 71;
+                        let mut kn = Vec::new();
+                        if kl > 1 { kn.push((kl - 2) as u8); for _ in 0..(kl - 2) { kn.push(b'k'); } }
+                        kn.push(0);
+                        let prep = PreparedTsigRr { key_name: name_of_wire(&kn).into(), time_signed: TimeSigned::try_from_unix_time(1_000_000).unwrap(), fudge: 300,
+                            original_id: 7, error: ExtendedRcode::from(0), server_time: TimeSigned::try_from_unix_time(1_000_000).unwrap() };
+                        w.set_tsig(TsigMode::Request { algorithm: Algorithm::HmacSha256, key: b"secret".to_vec().into() }, prep).map(|_| "ok").unwrap_or_else(errname)
+                    }
+                    "Clear" => { w.clear_rrs(); "ok" }
+                    "Finish" => {
+                        let st = w.verif_state();
+                        let n = w.finish();
+                        ops.push(json!({"op": "Finish", "arg": 0, "res": "ok", "cursor": st.0, "avail": st.1, "limit": st.2, "fin": n}));
+                        fin = n as i64;
+                        return;
+                    }
+                    x => panic!("unknown action {}", x),
+                };
+                let r = match r { "AlreadyEdns" | "AlreadyTsig" => "Already", x => x };
+                let st = w.verif_state();
+                ops.push(json!({"op": name, "arg": arg, "res": r, "cursor": st.0, "avail": st.1, "limit": st.2, "fin": 0}));
+            }
+        }));
+        out.emit(json!({"ev": "WS", "ops": ops, "fin": fin, "out": if res.is_ok() { "ok" } else { "panic" }, "final": if fin > 0 { buf[..fin as usize].to_vec() } else { Vec::new() }}));
+    }
+    eprintln!("writer/replay: {} records", out.finish());
+}
+
 pub fn main(args: &[String]) {
     silence_panics();
+    if args[0] == "replay" {
+        return replay(&args[1], &args[2]);
+    }
     let seed: u64 = args[0].parse().unwrap();
     let nseq: usize = args[1].parse().unwrap();
     let mut out = Out::create(&args[2]);
@@ -29,8 +104,12 @@ pub fn main(args: &[String]) {
     let names: Vec<Box<Name>> = ["example.test.", "www.example.test.", "WWW.Example.TEST.", "a.www.example.test.", "mail.example.test.", "b.a.www.example.test.",
         "other.net.", "x.", ".", "ns1.example.test.", "NS2.example.test.", "deep.er.a.www.example.test."].iter().map(|s| nm(s)).collect();
     for _ in 0..nseq {
-        let buflen = *[40usize, 100, 300, 512, 4096].choose(&mut r).unwrap();
-        let limit = if r.gen_bool(0.5) { buflen } else { r.gen_range(12..=buflen) };
+        // now and then a message that crosses offset 16384 (the reach of a 14-bit compression pointer): a first record with
+        // opaque RDATA brings the cursor to just below it, the random operations that follow write their names around it
+        let far = r.gen_bool(0.05);
+        let far_owner = if r.gen_bool(0.6) { 1 } else { 7 };
+        let buflen = if far { 20000 } else { *[40usize, 100, 300, 512, 4096].choose(&mut r).unwrap() };
+        let limit = if far || r.gen_bool(0.5) { buflen } else { r.gen_range(12..=buflen) };
         let mut buf = vec![0xEEu8; buflen];
         let mut ops: Vec<Value> = Vec::new();
         let res = catch_unwind(AssertUnwindSafe(|| {
@@ -38,11 +117,22 @@ pub fn main(args: &[String]) {
             let mut qname: Option<Box<Name>> = None;
             let mut last_owner: Option<Box<Name>> = None;
             let nops = r.gen_range(3..40);
-            for _ in 0..nops {
-                let k = r.gen_range(0..100);
+            for opi in 0..nops {
+                // far: the second operation writes www.example.test. in full right after the filler, so that one of its labels
+                // starts at (or next to) offset 16384; what follows refers to it
+                let force_owner = far && (opi == 1 || opi == 2);
+                // (far: mostly records afterwards, and neither clear_rrs nor set_limit, which would discard the long message)
+                let k = if force_owner { 50 } else if far { let k = r.gen_range(0..100); if (75..80).contains(&k) || k >= 92 || r.gen_bool(0.5) { r.gen_range(28..75) } else { k } } else { r.gen_range(0..100) };
                 let mut op: Value;
                 let st0 = w.verif_state();
-                if k < 8 {
+                if far && opi == 0 {
+                    let rdlen = 16384 - 12 - 11 - *[0usize, 4, 12, 0, 4, 12, 1, 5, 13, 3, 11, 16, 30].choose(&mut r).unwrap();
+                    let rd: Vec<u8> = (0..rdlen).map(|i| (i % 251) as u8).collect();
+                    let rdata: &Rdata = rd.as_slice().try_into().unwrap();
+                    let res = w.add_answer_rr(HintedName::new(Hint::None, Name::root()), 65280.into(), Class::IN, Ttl::from(0), rdata, None);
+                    if res.is_ok() { last_owner = Some(Name::root().to_owned()); }
+                    op = json!({"op": "rr", "sec": 0, "owner": [0], "hint": "none", "type": 65280, "class": 1, "ttl": 0, "rdatas": [rd], "res": res.map(|_| "ok").unwrap_or_else(errname)});
+                } else if k < 8 {
                     let (f, v) = (r.gen_range(0..6), r.gen_bool(0.5));
                     match f { 0 => w.set_qr(v), 1 => w.set_aa(v), 2 => w.set_tc(v), 3 => w.set_rd(v), 4 => w.set_ra(v), _ => { w.set_id(if v { 0xBEEF } else { 7 }); } }
                     op = json!({"op": "flag", "f": f, "v": v, "res": "ok"});
@@ -62,14 +152,16 @@ pub fn main(args: &[String]) {
                     if res.is_ok() && first { qname = Some(n.clone()); }
                     op = json!({"op": "question", "name": n.wire_repr().to_vec(), "qtype": qt, "qclass": 1, "res": res.map(|_| "ok").unwrap_or_else(errname)});
                 } else if k < 75 {
-                    let sec = r.gen_range(0..3);
-                    let owner = names.choose(&mut r).unwrap().clone();
+                    let sec = if force_owner { 0 } else { r.gen_range(0..3) };
+                    // far: the same owner twice (www.example.test. or the one-label x.), the second time mostly with the
+                    // "most recent owner" hint: a pointer to where the first one starts
+                    let owner = if force_owner { names[far_owner].clone() } else { names.choose(&mut r).unwrap().clone() };
                     // truthful hints only
                     let mut hint = Hint::None; let mut hint_s = "none";
                     if let Some(q) = &qname { if **q == *owner && r.gen_bool(0.5) { hint = Hint::Qname; hint_s = "qname"; } }
-                    if hint_s == "none" { if let Some(lo) = &last_owner { if **lo == *owner && r.gen_bool(0.5) { hint = Hint::MostRecentOwner; hint_s = "owner"; } } }
+                    if hint_s == "none" { if let Some(lo) = &last_owner { if **lo == *owner && (r.gen_bool(0.5) || (force_owner && r.gen_bool(0.6))) { hint = Hint::MostRecentOwner; hint_s = "owner"; } } }
                     let target = names.choose(&mut r).unwrap().clone();
-                    let (ty, class, rd): (u16, u16, Vec<u8>) = match r.gen_range(0..9) {
+                    let (ty, class, rd): (u16, u16, Vec<u8>) = match if force_owner { r.gen_range(1..5) } else { r.gen_range(0..9) } {
                         0 => (1, 1, vec![192, 0, 2, r.gen()]),
                         1 => (2, 1, target.wire_repr().to_vec()),
                         2 => (5, 1, target.wire_repr().to_vec()),
